@@ -46,6 +46,9 @@ structure Sim where
   gr : Bool := false
   gateAt : Option GateAt := none
   obsGates : List String := []
+  obsRej : List Nat := []                      -- callbacks never invoked in the observed run (resolves whether a registration
+                                               -- naming own AND foreign observables was rejected as a whole: Go map order)
+  cbForeign : List (Nat × List Nat) := []      -- foreign instruments a partially accepted callback also observes
   obsOc : List String := []                    -- observed results of the OC / CC operations still to come (only `skip` is read)
   gates : List String := []                    -- model's gate sequence, newest first
   pend : List (Nat × POp) := []
@@ -165,8 +168,16 @@ def tryOp (x : Sim) (tid : Nat) (p : POp) : Sim × Option POp :=
   | .RB c k is =>
     match lookup x.meters k with
     | some (.ph m) =>
-      match step false x.ms tid (.regBad m) with
-      | some s' => ({ x with ms := s', cbs := (c, .ph x.ms.nR, is) :: x.cbs }.tag "regRejectedLater", none)
+      let isOwn := fun (i : Nat) => match lookup x.insts i with
+        | some (.ph j, _) => x.ms.iMeter j == m
+        | _ => false
+      let own := is.filter isOwn
+      let foreign := is.filter (fun i => !isOwn i)
+      let partialAcc := !own.isEmpty && !x.obsRej.contains c
+      match step false x.ms tid (if partialAcc then .regPartial m else .regBad m) with
+      | some s' =>
+        ({ x with ms := s', cbs := (c, .ph x.ms.nR, own) :: x.cbs, cbForeign := (c, foreign) :: x.cbForeign }.tag
+            (if partialAcc then "regAcceptedWithError" else if own.isEmpty then "regRejectedLater" else "regMixRejected"), none)
       | none => if x.ms.mDel m then ({ x with bad := true }, none) else (x.tag "blocked:R", some p)
     | _ => ({ x with bad := true }, none)     -- on an SDK meter the error goes to the caller: not generated
   | .U1 c =>
@@ -280,7 +291,7 @@ def stepMs (x : Sim) (tid : Nat) (a : Act) : Sim :=
 
 /-- the body of the user function of callback c: one `Observe(inst, c+1)` per instrument -/
 def cbBody (x : Sim) (tid reader c : Nat) (h : CH) (is : List Nat) : Sim :=
-  is.foldl (fun x i =>
+  (is ++ (lookup x.cbForeign c).getD []).foldl (fun x i =>
     match h, lookup x.insts i with
     | .ph _, some (.ph j, _) => stepMs x tid (.cbObserve j (c + 1))
     | _, some _ => { x with dObs := (reader, i, c, c + 1) :: x.dObs }
@@ -304,7 +315,7 @@ def cbWhole (x : Sim) (tid reader : Nat) (e : Nat × CH × List Nat) : Sim :=
 def readerPoints (x : Sim) (n0 d0 reader : Nat) : List (Nat × Nat × Nat) :=
   let newLog := x.ms.obsLog.take (x.ms.obsLog.length - n0)
   let ph := newLog.filterMap fun e =>
-    if e.target == reader && e.unwrapped then
+    if e.target == reader && e.unwrapped && e.own then
       match x.insts.find? (fun p => p.2.1 == IH.ph e.inst), x.cbs.find? (fun p => p.2.1 == CH.ph e.r) with
       | some (i, _), some (c, _) => some (i, c, e.v)
       | _, _ => none
